@@ -2,12 +2,13 @@
 """sweep.py [--tier quick] [--seeds 1,2,3] [--ids C01,C02] : runs registered checks sequentially, prints one line per run.
 Evidence files are rewritten by the runs (use only on the unchanged tree)."""
 import argparse, json, os, subprocess, sys, time
+HERE = os.path.dirname(os.path.dirname(os.path.abspath(__file__)))
 ap = argparse.ArgumentParser()
 ap.add_argument("--tier", default="quick")
 ap.add_argument("--seeds", default="1,2,3")
 ap.add_argument("--ids", default="")
 a = ap.parse_args()
-man = json.load(open("/verif/MANIFEST.json"))
+man = json.load(open(os.path.join(HERE, "MANIFEST.json")))
 ids = [c["property_id"] for c in man["checks"]]
 if a.ids:
     ids = [i for i in ids if i in a.ids.split(",")]
@@ -16,7 +17,7 @@ for seed in a.seeds.split(","):
     for pid in ids:
         t = time.time()
         env = dict(os.environ, VERIF_SEED=seed)
-        p = subprocess.run(["python3", "/verif/bin/check", pid, "--tier", a.tier], cwd="/verif", env=env, stdout=subprocess.PIPE,
+        p = subprocess.run(["python3", os.path.join(HERE, "bin", "check"), pid, "--tier", a.tier], cwd=HERE, env=env, stdout=subprocess.PIPE,
                            stderr=subprocess.STDOUT, text=True)
         last = [l for l in p.stdout.splitlines() if l.startswith(("OK ", "VIOLATION", "UNDECIDED", "DRIFT"))]
         kf = sum(1 for l in p.stdout.splitlines() if l.startswith("KNOWN-FINDING"))
